@@ -317,10 +317,20 @@ pub fn gen_model(r: &mut Rng) -> Model {
     let n_pdu = r.below(6) as usize;
     let pdu_ids: Vec<String> = (0..n_pdu).map(|i| format!("ID_{}", 4000 + i)).collect();
     let seq = |r: &mut Rng, k: usize| -> usize {
-        match r.below(5) {
+        match r.below(7) {
             0 => r.below(3) as usize,           // ties
             1 => 1000 - k,                        // descending
+            // numbers are `usize`: values around 2^16, 2^31, 2^32, 2^63 and the largest one
+            2 => *r.pick(&[65535usize, 65536, (1 << 31) - 1, 1 << 31, u32::MAX as usize, (u32::MAX as usize) + 1,
+                           (1usize << 32) + 7, 1usize << 63, usize::MAX - 1, usize::MAX]),
             _ => r.below(20) as usize,
+        }
+    };
+    let blen = |r: &mut Rng| -> usize {
+        if r.chance(1, 8) {
+            *r.pick(&[255usize, 256, 65535, 65536, u32::MAX as usize, (u32::MAX as usize) + 1, usize::MAX])
+        } else {
+            r.below(64) as usize
         }
     };
     for (pi, id) in pdu_ids.iter().enumerate() {
@@ -346,7 +356,7 @@ pub fn gen_model(r: &mut Rng) -> Model {
                 1 => Some(String::new()),
                 _ => Some(name(r)),
             },
-            byte_length: r.below(64) as usize,
+            byte_length: blen(r),
             signals,
         };
         elems.push(Elem::Pdu(p.clone()));
@@ -394,7 +404,7 @@ pub fn gen_model(r: &mut Rng) -> Model {
                 1 => Some(String::new()),
                 _ => None,
             },
-            byte_length: r.below(64) as usize,
+            byte_length: blen(r),
             pdus,
             ext,
         }));
